@@ -7,6 +7,7 @@
    stock monitor (object-graph walk, exact arithmetic) — partial. *)
 From Coq Require Import QArith Qminmax List Bool Arith.
 From WSI Require Import Vqip Pow Tank Arc QTank Run TankLaws ArcLaws QTankLaws QueueLaws.
+From WSI Require Net NetLaws.
 Import ListNotations.
 Open Scope Q_scope.
 
@@ -39,3 +40,15 @@ Theorem C03_decay_partition : forall d T v c, conserved c ->
   cmp c (fst (vdecay d T v)) + cmp c (snd (vdecay d T v)) == cmp c v.
 Proof. exact vdecay_conserved. Qed.
 Print Assumptions C03_decay_partition.
+
+(* ---- the composition: whole networks (coq/Net.v, NetLaws.v), water ----
+   Over any sequence of orchestration calls on any well-formed network the summed balance of any
+   set of interior nodes is kept: the water the stores of the system gained is what crossed its
+   boundary arcs (from catchments, to outlets) - nothing appears or vanishes inside, whatever the
+   topology, re-entrant request chains included. *)
+Theorem C03_network_system_ledger : forall maxiter fuel os s s' ks,
+  NetLaws.wf s -> NetLaws.orch_all maxiter fuel s os = Some s' ->
+  (forall k, In k ks -> NetLaws.interior s k /\ forall m, In (Net.ORoute m) os -> k <> m) ->
+  NetLaws.qsum (map (NetLaws.balance s') ks) == NetLaws.qsum (map (NetLaws.balance s) ks).
+Proof. exact NetLaws.system_ledger. Qed.
+Print Assumptions C03_network_system_ledger.
